@@ -775,10 +775,20 @@ func (e *emitter) c16Effects(s *source, rel, goName, leanName string) {
 			case *ast.GoStmt:
 				visit(x.Call, "go")
 				return false
+			case *ast.AssignStmt:
+				// `m[k] = v`: a store into a map (slices too), the other kind of effect besides calls
+				if len(x.Lhs) == 1 && len(x.Rhs) == 1 && x.Tok == token.ASSIGN {
+					if ix, ok := x.Lhs[0].(*ast.IndexExpr); ok {
+						visit(x.Rhs[0], "call")
+						out = append(out, eff{"store", txt(ix.X), []string{txt(ix.Index), txt(x.Rhs[0])}})
+						return false
+					}
+				}
+				return true
 			case *ast.CallExpr:
 				callee := txt(x.Fun)
 				switch callee {
-				case "make", "len", "panic", "delete", "append", "int", "new":
+				case "make", "len", "panic", "append", "int", "new":
 					return true
 				}
 				var args []string
